@@ -36,9 +36,9 @@ func (s slot) String() string {
 
 type baseline struct {
 	slots   []slot
-	classes map[string][]string         // slot kind key (round|b/u) -> leaf and array path classes
-	bodies  map[string][]*cbormut.Node  // slot kind key -> parsed honest bodies (this session)
-	para    map[string][]*cbormut.Node  // slot kind key -> parsed bodies of the parallel session
+	classes map[string][]string            // slot kind key (round|b/u) -> leaf and array path classes
+	bodies  map[string][]*cbormut.Node     // slot kind key -> parsed honest bodies (this session)
+	para    map[string][]*cbormut.Node     // slot kind key -> parsed bodies of the parallel session
 	raw     map[string]map[proto.ID][]byte // slot kind key -> sender -> one honest body (for whole-message replay)
 	rawPara map[string]map[proto.ID][]byte
 	wall    time.Duration
@@ -92,7 +92,7 @@ func honestRun(sc *scenario, salt uint64) ([]*netsim.Msg, map[proto.ID]any, time
 	return net.Log(), outs, oc.Wall, nil
 }
 
-func getBaseline(t *rapid.T, sc *scenario) *baseline {
+func getBaseline(t fataler, sc *scenario) *baseline {
 	blMu.Lock()
 	defer blMu.Unlock()
 	if b, ok := blMap[sc.name]; ok {
@@ -174,243 +174,334 @@ var wholeOps = []string{opDrop, opReplayOther, opReplayPara, opSwapRecipient}
 
 func survey() bool { return os.Getenv("C04_SURVEY") != "" }
 
+// faultSpec is one point of the fault space.
+type faultSpec struct {
+	sc    *scenario
+	sl    slot
+	plan  cbormut.Plan // leaf / array operators
+	whole string       // whole-message operators (plan unused)
+}
+
+func (f faultSpec) opName() string {
+	if f.whole != "" {
+		return f.whole
+	}
+	return f.plan.Op
+}
+
+func (f faultSpec) class() string {
+	if f.whole != "" {
+		return "<whole>"
+	}
+	return f.plan.Class
+}
+
+type fataler interface {
+	Fatalf(format string, args ...any)
+}
+
+// runFault executes one faulty run and applies the oracles; it returns the verdict class and
+// whether the case was non-trivial (the operator applied and changed the encoding).
+func runFault(t fataler, test string, f faultSpec) (verdict string, nontrivial bool) {
+	sc, sl, plan, whole := f.sc, f.sl, f.plan, f.whole
+	bl := getBaseline(t, sc)
+	key := kindKey(sl.round, sl.broadcast)
+	deviator := sl.from
+	what := fmt.Sprintf("scenario=%s slot=%s", sc.name, sl)
+
+	rs, err := sc.runners(1, fixedSeeds(sc, 1))
+	if err != nil {
+		t.Fatalf("%s: %v", what, err)
+	}
+	net := netsim.New(sc.parties)
+	var (
+		imu      sync.Mutex
+		applied  bool
+		dropped  bool
+		mutDesc  string
+		mutBody  []byte // the mutated body (broadcast: reused for every copy)
+		noop     bool
+		inapplic bool
+	)
+	donors := append(append([]*cbormut.Node{}, bl.para[key]...), bl.bodies[key]...)
+	net.SetInterceptor(func(m *netsim.Msg) []*netsim.Msg {
+		if m.From != deviator || m.Round() != sl.round || m.Kind == netsim.Echo2 || m.Kind == netsim.Other || m.IsBroadcast() != sl.broadcast {
+			return []*netsim.Msg{m}
+		}
+		if !sl.broadcast && m.To != sl.to {
+			return []*netsim.Msg{m}
+		}
+		imu.Lock()
+		defer imu.Unlock()
+		if mutBody == nil && !dropped && !inapplic {
+			switch whole {
+			case opDrop:
+				dropped, applied, mutDesc = true, true, "drop"
+			case opReplayOther, opReplayPara, opSwapRecipient:
+				var src []byte
+				if whole == opReplayPara {
+					src = bl.rawPara[key][deviator]
+				} else if whole == opReplayOther {
+					for _, id := range sc.parties {
+						if id != deviator && bl.raw[key][id] != nil {
+							src = bl.raw[key][id]
+							break
+						}
+					}
+				} else if !sl.broadcast {
+					// what was sent to somebody else in the honest run
+					for _, mm := range bl.bodies[key] {
+						enc := mm.Encode()
+						if string(enc) != string(m.Body) {
+							src = enc
+							break
+						}
+					}
+				}
+				if src == nil || string(src) == string(m.Body) {
+					inapplic = true
+				} else {
+					mutBody, applied, mutDesc = src, true, whole
+				}
+			default:
+				root, err := cbormut.Parse(m.Body)
+				if err != nil {
+					inapplic = true
+					break
+				}
+				root.OpenNested()
+				mu, ok := cbormut.Apply(root, donors, plan)
+				if !ok {
+					inapplic = true
+					break
+				}
+				enc := root.Encode()
+				if string(enc) == string(m.Body) {
+					noop = true
+					inapplic = true
+					break
+				}
+				mutBody, applied, mutDesc = enc, true, mu.String()
+			}
+		}
+		if dropped {
+			return nil
+		}
+		if mutBody == nil {
+			return []*netsim.Msg{m}
+		}
+		c := m.Clone()
+		c.Body = mutBody
+		return []*netsim.Msg{c}
+	})
+	idle := sc.idle
+	if w := 8 * bl.wall; w > idle {
+		idle = w
+	}
+	res, oc := netsim.RunAll(net, rs, netsim.Options{Idle: idle, Hard: 20 * time.Minute, StallOK: func() bool {
+		imu.Lock()
+		defer imu.Unlock()
+		return applied
+	}})
+	imu.Lock()
+	wasApplied, desc := applied, mutDesc
+	imu.Unlock()
+	opName := f.opName()
+	if !wasApplied {
+		cl := "inapplicable"
+		if noop {
+			cl = "noop"
+		}
+		return cl, false
+	}
+	what = fmt.Sprintf("%s fault=%s", what, desc)
+
+	// ---- S1: no panic, no hang
+	if oc.HardStop {
+		t.Fatalf("%s: the run did not end within the hard bound", what)
+	}
+	honestErr, honestCancelled := 0, 0
+	outs := map[proto.ID]any{}
+	for id, r := range res {
+		if r.Panic != nil {
+			t.Fatalf("%s: party %d panicked: %v\n%s", what, id, r.Panic, r.Stack)
+		}
+		if r.Cancelled {
+			if id != deviator {
+				honestCancelled++
+			}
+			continue
+		}
+		if r.Err != nil {
+			if id == deviator {
+				continue // the deviator's own verdict is not read
+			}
+			honestErr++
+			// ---- S2: every blamed party is the deviator
+			for _, culprit := range base.GetMaliciousIdentities[proto.ID](r.Err) {
+				if culprit != deviator {
+					t.Fatalf("%s: honest party %d blames party %d, the deviator is %d: %v", what, id, culprit, deviator, r.Err)
+				}
+			}
+			continue
+		}
+		outs[id] = r.Out
+	}
+	// ---- S3: whatever was returned is consistent and valid
+	if len(outs) > 0 {
+		if err := sc.check(outs); err != nil {
+			t.Fatalf("%s: %v", what, err)
+		}
+	}
+	// ---- D: a bound alteration is rejected before a result is accepted
+	detected := honestErr > 0
+	verdict = "detected"
+	if whole == opDrop {
+		verdict = "dropped"
+	} else if !sl.broadcast {
+		r := res[sl.to]
+		switch {
+		case r.Cancelled:
+			verdict = "inconclusive"
+		case r.Err != nil:
+			verdict = "detected-by-recipient"
+		case detected:
+			verdict = "detected-by-other"
+		default:
+			verdict = "undetected"
+		}
+	} else {
+		switch {
+		case detected:
+		case honestCancelled > 0:
+			verdict = "inconclusive"
+		default:
+			verdict = "undetected"
+		}
+	}
+	cls := f.class()
+	if verdict == "undetected" || verdict == "detected-by-other" {
+		free, _ := isFree(sc, sl, cls, opName)
+		if free {
+			verdict = "free"
+		} else if survey() {
+			fmt.Printf("SURVEY-%s %s %s class=%s op=%s :: %s\n", verdict, sc.name, sl, cls, opName, desc)
+			verdict = "survey-" + verdict
+		} else if verdict == "undetected" {
+			t.Fatalf("%s: the alteration of a bound part of the message was accepted: every honest party completed without error (class %s)", what, cls)
+		} else {
+			t.Fatalf("%s: the message was addressed to party %d only, which accepted it; the alteration was rejected only by another party (class %s)", what, sl.to, cls)
+		}
+	}
+	vlib.Sample("fault:"+sc.name, map[string]any{"scenario": sc.name, "slot": sl.String(), "fault": desc, "verdict": verdict})
+	return verdict, true
+}
+
+func eligibleSlots(sc *scenario, bl *baseline) []slot {
+	var slots []slot
+	for _, s := range bl.slots {
+		if s.from != sc.anchor {
+			slots = append(slots, s)
+		}
+	}
+	return slots
+}
+
+// TestFaults draws points of the fault space at random.
 func TestFaults(t *testing.T) {
 	const test = "Faults"
-	vlib.Check(t, 640, func(t *rapid.T) {
+	vlib.Check(t, 480, func(t *rapid.T) {
 		scs := allScenarios()
 		sc := scs[rapid.IntRange(0, len(scs)-1).Draw(t, "scenario")]
 		bl := getBaseline(t, sc)
-		// eligible slots: sender is not the trusted anchor
-		var slots []slot
-		for _, s := range bl.slots {
-			if s.from != sc.anchor {
-				slots = append(slots, s)
-			}
-		}
+		slots := eligibleSlots(sc, bl)
 		sl := slots[rapid.IntRange(0, len(slots)-1).Draw(t, "slot")]
-		key := kindKey(sl.round, sl.broadcast)
-		classes := bl.classes[key]
-		// choose operator family, then class
-		var plan cbormut.Plan
-		var whole string
+		classes := bl.classes[kindKey(sl.round, sl.broadcast)]
+		f := faultSpec{sc: sc, sl: sl}
 		switch rapid.IntRange(0, 9).Draw(t, "opFamily") {
 		case 0:
-			whole = rapid.SampledFrom(wholeOps).Draw(t, "wholeOp")
+			f.whole = rapid.SampledFrom(wholeOps).Draw(t, "wholeOp")
 		default:
 			cls := rapid.SampledFrom(classes).Draw(t, "class")
-			plan.Class = cls
+			f.plan.Class = cls
 			if strings.HasSuffix(cls, "[]") {
-				plan.Op = rapid.SampledFrom(arrayOps).Draw(t, "op")
+				f.plan.Op = rapid.SampledFrom(arrayOps).Draw(t, "op")
 			} else {
-				plan.Op = rapid.SampledFrom(leafOps).Draw(t, "op")
+				f.plan.Op = rapid.SampledFrom(leafOps).Draw(t, "op")
 			}
-			plan.Pick = rapid.Uint64().Draw(t, "pick")
-			plan.Pos = rapid.Uint64().Draw(t, "pos")
-			plan.Bit = uint8(rapid.IntRange(0, 255).Draw(t, "bit"))
-			plan.Down = rapid.Bool().Draw(t, "down")
+			f.plan.Pick = rapid.Uint64().Draw(t, "pick")
+			f.plan.Pos = rapid.Uint64().Draw(t, "pos")
+			f.plan.Bit = uint8(rapid.IntRange(0, 255).Draw(t, "bit"))
+			f.plan.Down = rapid.Bool().Draw(t, "down")
 		}
-		deviator := sl.from
-		what := fmt.Sprintf("scenario=%s slot=%s", sc.name, sl)
-
-		rs, err := sc.runners(1, fixedSeeds(sc, 1))
-		if err != nil {
-			t.Fatalf("%s: %v", what, err)
-		}
-		net := netsim.New(sc.parties)
-		var (
-			imu      sync.Mutex
-			applied  bool
-			dropped  bool
-			mutDesc  string
-			mutBody  []byte // the mutated body (broadcast: reused for every copy)
-			noop     bool
-			inapplic bool
-		)
-		donors := append(append([]*cbormut.Node{}, bl.para[key]...), bl.bodies[key]...)
-		net.SetInterceptor(func(m *netsim.Msg) []*netsim.Msg {
-			if m.From != deviator || m.Round() != sl.round || m.Kind == netsim.Echo2 || m.Kind == netsim.Other || m.IsBroadcast() != sl.broadcast {
-				return []*netsim.Msg{m}
-			}
-			if !sl.broadcast && m.To != sl.to {
-				return []*netsim.Msg{m}
-			}
-			imu.Lock()
-			defer imu.Unlock()
-			if mutBody == nil && !dropped && !inapplic {
-				switch whole {
-				case opDrop:
-					dropped, applied, mutDesc = true, true, "drop"
-				case opReplayOther, opReplayPara, opSwapRecipient:
-					var src []byte
-					if whole == opReplayPara {
-						src = bl.rawPara[key][deviator]
-					} else if whole == opReplayOther {
-						for _, id := range sc.parties {
-							if id != deviator && bl.raw[key][id] != nil {
-								src = bl.raw[key][id]
-								break
-							}
-						}
-					} else if !sl.broadcast {
-						// what the deviator sent to somebody else in the honest run
-						for _, mm := range bl.bodies[key] {
-							enc := mm.Encode()
-							if string(enc) != string(m.Body) {
-								src = enc
-								break
-							}
-						}
-					}
-					if src == nil || string(src) == string(m.Body) {
-						inapplic = true
-					} else {
-						mutBody, applied, mutDesc = src, true, whole
-					}
-				default:
-					root, err := cbormut.Parse(m.Body)
-					if err != nil {
-						inapplic = true
-						break
-					}
-					root.OpenNested()
-					mu, ok := cbormut.Apply(root, donors, plan)
-					if !ok {
-						inapplic = true
-						break
-					}
-					enc := root.Encode()
-					if string(enc) == string(m.Body) {
-						noop = true
-						inapplic = true
-						break
-					}
-					mutBody, applied, mutDesc = enc, true, mu.String()
-				}
-			}
-			if dropped {
-				return nil
-			}
-			if mutBody == nil {
-				return []*netsim.Msg{m}
-			}
-			c := m.Clone()
-			c.Body = mutBody
-			return []*netsim.Msg{c}
-		})
-		idle := sc.idle
-		if w := 8 * bl.wall; w > idle {
-			idle = w
-		}
-		res, oc := netsim.RunAll(net, rs, netsim.Options{Idle: idle, Hard: 20 * time.Minute, StallOK: func() bool {
-			imu.Lock()
-			defer imu.Unlock()
-			return applied
-		}})
-		imu.Lock()
-		wasApplied, desc := applied, mutDesc
-		imu.Unlock()
-		opName := plan.Op
-		if whole != "" {
-			opName = whole
-		}
-		if !wasApplied {
-			cl := "inapplicable"
-			if noop {
-				cl = "noop"
-			}
-			vlib.Case(test, vlib.Desc(sc.name, sl.round, sl.broadcast, plan.Class, opName, cl), false, "trivial="+cl)
-			return
-		}
-		what = fmt.Sprintf("%s fault=%s", what, desc)
-
-		// ---- S1: no panic, no hang
-		if oc.HardStop {
-			t.Fatalf("%s: the run did not end within the hard bound", what)
-		}
-		honestDone, honestErr, honestCancelled := 0, 0, 0
-		outs := map[proto.ID]any{}
-		for id, r := range res {
-			if r.Panic != nil {
-				t.Fatalf("%s: party %d panicked: %v\n%s", what, id, r.Panic, r.Stack)
-			}
-			if r.Cancelled {
-				if id != deviator {
-					honestCancelled++
-				}
-				continue
-			}
-			if r.Err != nil {
-				if id == deviator {
-					continue // the deviator's own verdict is not read
-				}
-				honestErr++
-				// ---- S2: every blamed party is the deviator
-				for _, culprit := range base.GetMaliciousIdentities[proto.ID](r.Err) {
-					if culprit != deviator {
-						t.Fatalf("%s: honest party %d blames party %d, the deviator is %d: %v", what, id, culprit, deviator, r.Err)
-					}
-				}
-				continue
-			}
-			outs[id] = r.Out
-			if id != deviator {
-				honestDone++
-			}
-		}
-		// ---- S3: whatever was returned is consistent and valid
-		if len(outs) > 0 {
-			if err := sc.check(outs); err != nil {
-				t.Fatalf("%s: %v", what, err)
-			}
-		}
-		// ---- D: a bound alteration is rejected before a result is accepted
-		detected := honestErr > 0
-		verdict := "detected"
-		if whole == opDrop {
-			verdict = "dropped"
-		} else if !sl.broadcast {
-			r := res[sl.to]
-			switch {
-			case r.Cancelled:
-				verdict = "inconclusive"
-			case r.Err != nil:
-				verdict = "detected-by-recipient"
-			case detected:
-				verdict = "detected-by-other"
-			default:
-				verdict = "undetected"
-			}
-		} else {
-			switch {
-			case detected:
-			case honestCancelled > 0:
-				verdict = "inconclusive"
-			default:
-				verdict = "undetected"
-			}
-		}
-		cls := plan.Class
-		if whole != "" {
-			cls = "<whole>"
-		}
-		if verdict == "undetected" || verdict == "detected-by-other" {
-			free, why := isFree(sc.name, sl.round, sl.broadcast, cls, opName)
-			if free {
-				verdict = "free"
-				_ = why
-			} else if survey() {
-				vlib.Class(test, fmt.Sprintf("SURVEY-%s %s %s bcast=%v %s %s", verdict, sc.name, sl.round, sl.broadcast, cls, opName))
-				fmt.Printf("SURVEY-%s %s %s bcast=%v class=%s op=%s :: %s\n", verdict, sc.name, sl.round, sl.broadcast, cls, opName, desc)
-			} else if verdict == "undetected" {
-				t.Fatalf("%s: the alteration of a bound part of the message was accepted: every honest party completed without error (class %s)", what, cls)
-			} else {
-				t.Fatalf("%s: the message was addressed to party %d only, which accepted it; the alteration was rejected only by another party (class %s)", what, sl.to, cls)
-			}
-		}
-		vlib.Case(test, vlib.Desc(sc.name, sl.round, sl.broadcast, cls, opName, deviatorPos(sc, deviator)), true,
-			"scenario="+sc.name, "op="+opName, "verdict="+verdict, fmt.Sprintf("broadcast=%v", sl.broadcast))
-		vlib.Sample("fault:"+sc.name, map[string]any{"scenario": sc.name, "slot": sl.String(), "fault": desc, "verdict": verdict})
+		verdict, nt := runFault(t, test, f)
+		vlib.Case(test, vlib.Desc(sc.name, sl.round, sl.broadcast, f.class(), f.opName(), deviatorPos(sc, sl.from)), nt,
+			"scenario="+sc.name, "op="+f.opName(), "verdict="+verdict, fmt.Sprintf("broadcast=%v", sl.broadcast))
 	})
+}
+
+// TestFaultsEnumerated walks the whole (scenario x slot x leaf class x operator) space once,
+// sharded; concrete leaf / byte / bit choices inside a class derive from VERIF_SEED. It runs in
+// the thorough tier and in survey mode (C04_SURVEY=1), where undetected cases are listed
+// instead of failing - that listing is how the free-list is established on the unchanged tree.
+func TestFaultsEnumerated(t *testing.T) {
+	const test = "FaultsEnumerated"
+	if !vlib.Thorough() && !survey() {
+		t.Skip("thorough tier / survey only")
+	}
+	scs := allScenarios()
+	i := 0
+	for _, sc := range scs {
+		var bl *baseline
+		for _, dummy := range []int{0} {
+			_ = dummy
+		}
+		mine := func() bool { i++; return vlib.Mine(i - 1) }
+		get := func() *baseline {
+			if bl == nil {
+				bl = getBaseline(t, sc)
+			}
+			return bl
+		}
+		// slots are only known after the baseline; compute it lazily per scenario but deterministically
+		b := get()
+		for _, sl := range eligibleSlots(sc, b) {
+			classes := b.classes[kindKey(sl.round, sl.broadcast)]
+			var specs []faultSpec
+			for _, w := range wholeOps {
+				specs = append(specs, faultSpec{sc: sc, sl: sl, whole: w})
+			}
+			for _, cls := range classes {
+				ops := []string{cbormut.OpBitFlip, cbormut.OpReplace, cbormut.OpSwap, cbormut.OpZero, cbormut.OpIntStep}
+				if strings.HasSuffix(cls, "[]") {
+					ops = arrayOps
+				}
+				for _, op := range ops {
+					specs = append(specs, faultSpec{sc: sc, sl: sl, plan: cbormut.Plan{Op: op, Class: cls}})
+				}
+			}
+			for _, f := range specs {
+				if !mine() {
+					continue
+				}
+				h := hash64(fmt.Sprintf("%d|%s|%s|%s|%s", vlib.Seed(), sc.name, sl, f.class(), f.opName()))
+				f.plan.Pick, f.plan.Pos, f.plan.Bit, f.plan.Down = h, h>>17, uint8(h>>40), h&1 == 1
+				verdict, nt := runFault(t, test, f)
+				vlib.Case(test, vlib.Desc(sc.name, sl.round, sl.broadcast, f.class(), f.opName(), deviatorPos(sc, sl.from)), nt,
+					"scenario="+sc.name, "op="+f.opName(), "verdict="+verdict, fmt.Sprintf("broadcast=%v", sl.broadcast))
+			}
+		}
+	}
+	vlib.Exhaustive("every (scenario, slot, leaf path class, operator) combination of the C04 fault space once (concrete leaf/bit choices inside a class are sampled)")
+}
+
+func hash64(s string) uint64 {
+	var h uint64 = 1469598103934665603
+	for i := 0; i < len(s); i++ {
+		h ^= uint64(s[i])
+		h *= 1099511628211
+	}
+	return h
 }
 
 func deviatorPos(sc *scenario, d proto.ID) int {
